@@ -225,7 +225,7 @@ let handle ws = match ws with
        let p = { p_salt = bytes_of_hex salt; p_iter = zi iter; p_keylen = zi kl; p_prf = zi prf; p_cipher = z_of_int 20; p_iv = bytes_of_hex iv } in
        enc (p8e_to_der p en)
      | "p8open", [pass; h] -> let i = bytes_of_hex h in
-       (match sm2_p8_open pub_of pt_ok kdf cbcdec_sm4 (bytes_of_hex pass) i with
+       (match sm2_p8_open_c pub_of pt_ok kdf cbcdec_sm4 (bytes_of_hex pass) i with
         | Ok (((d, xy), at), r) -> "OK " ^ hx d ^ " " ^ hx xy ^ " " ^ attrs_s at ^ " " ^ soi (llen i - llen r)
         | Fault -> "FAULT" | _ -> "ERR")
      | "pemW", [name; d] -> (match pem_write (bytes_of_hex name) (bytes_of_hex d) with Some t -> "OK " ^ hx t | None -> "ERR")
